@@ -78,9 +78,52 @@ def options_forwarded(ctx):
                                   options=repr(opts), value=repr(mv(v)), part_accepts=bare, combined_accepts=got)
 
 
+def wide_unions(ctx):
+    """unions of 9 to 14 operands — several non-constant operands of one class among them — built by any(*ops), by chained |,
+    by nesting and by joining two unions: the union accepts a value iff some operand does (probed with a witness of each
+    operand and with values no operand accepts)"""
+    ops = [(schema.int.min(100), 150), (schema.int.max(-100), -150), (schema.int(7), 7), (schema.str.len(1, 2), "ab"), (schema.str.regex(r"^z+$"), "zzz"),
+           (schema.str("lit"), "lit"), (schema.dict({"a": schema.int}), {"a": 1}), (schema.dict({"b": schema.str}), {"b": "s"}),
+           (schema.list(schema.int), [1, 2]), (schema.list(schema.str), ["s"]), (schema.alias("P", schema.float.min(0.0)), 1.5),
+           (schema.alias("N", schema.float.max(-1.0)), -2.5), (schema.none, None), (schema.bool, True), (schema.bytes, b"x")]
+    outsiders = [50, -50, "abc", {"c": 1}, [None], -0.5, 8, "", {"a": "s"}]
+    for n in (2, 3, 8, 9, 10, 12, 15):
+        for rot in (0, 1, 5):
+            sel = (ops[rot:] + ops[:rot])[:n]
+            parts = [s for s, _ in sel]
+            builds = [("any(*ops)", lambda: schema.any(*parts))]
+            if n >= 2:
+                def chain():
+                    u = parts[0]
+                    for x in parts[1:]:
+                        u = u | x
+                    return u
+                builds.append(("a | b | ...", chain))
+                builds.append(("any(any(head), *tail)", lambda: schema.any(schema.any(*parts[: n // 2]), *parts[n // 2:])))
+                builds.append(("u1 | u2", lambda: schema.any(*parts[: n // 2]) | schema.any(*parts[n // 2:])))
+            for bname, build in builds:
+                try:
+                    u = build()
+                except Exception as e:  # noqa: BLE001
+                    ctx.violation("building a union raised " + type(e).__name__, build=bname, operands=n)
+                    continue
+                for v in [w for _, w in sel] + outsiders:
+                    ctx.count("wide_union_probes")
+                    try:
+                        some = any(not validate(p, v).has_errors() for p in parts)
+                        got = not validate(u, v).has_errors()
+                    except Exception:  # noqa: BLE001
+                        continue
+                    if some != got:
+                        ctx.violation("a union does not accept exactly what its operands accept", build=bname, operands=n,
+                                      union=repr(u)[:400], value=repr(v), some_operand_accepts=some, union_accepts=got)
+                        break
+
+
 def run(ctx):
     runner.prove(ctx, MODULE, THEOREMS, FILES)
     options_forwarded(ctx)
+    wide_unions(ctx)
     g = SchemaGen(ctx.rnd, max_depth=2)
     reqs, exp, info = [], [], []
 
